@@ -142,6 +142,7 @@ func vconnect(fd int, vc *vconn, sa syscall.Sockaddr) error {
 
 // vcomplete runs on the scheduler goroutine when the virtual handshake finishes.
 //
+//go:nocheckptr
 //go:norace
 func vcomplete(fd, gen int, l *VListener, mode int) {
 	vc := vconns[fd]
